@@ -48,8 +48,11 @@ PROP = dict(
         level_note='Partial: totality (no panic, no stack overflow, no hang) and tree well-formedness are theorems for the first pass (first_pass_total, first_pass_WF; any well-formed pool); every tree pass except parseDeferredBlocks is proved panic-free and WF-preserving (some under explicit shape hypotheses, none with its fuel bound); parseDeferredBlocks and the composition into parseAML are NOT theorems; '
                    'they need the object-tree invariant of C13 with state-dependent operation contracts threaded through ~25 call sites '
                    'and are covered by differential testing of a faithful executable Lean port (0 mismatches on 10^5-10^6 inputs incl. '
-                   'the 3577-object DSDT tree) plus the property oracle on the real code (outcome in {ok, parse error}; stored []byte '
-                   'inside its table; pool links form a well-formed forest with an exact free list; PrettyPrint does not panic). '
+                   'the 3577-object DSDT tree) plus the property oracle on the real code, decided on the implementation\'s observation alone: '
+                   'outcome in {ok, parse error} (clauses never-panics / never-overflows-stack / terminates, from recover and the runner\'s watchdogs); '
+                   'objects allocated by one table <= 4*len+16 (clause work-bounded; measured maximum on the unchanged tree is 2 per byte; '
+                   'first_pass_total proves 16 per byte for the first pass); stored []byte '
+                   'inside its table; pool links form a well-formed forest with an exact free list; PrettyPrint does not panic. '
                    'slices_in_table is a partial-correctness theorem about the model (runs ending in .panic/.outOfFuel return no tree) '
                    'with hypothesis SizeOk (len+1024 <= 2^32) and an input pool holding only in-table values (true of the default scopes; '
                    'multi-table loads are outside the theorem). Functions covered by slices_in_table: every function of '
